@@ -146,44 +146,58 @@ def t_average(sess, config, custom, n_grains, n_steps):
     with np_installed(minerals, tensors):
         paths, info = sym.explore(fn, catch=(Exception,))
     tag = f"average[{config}{', custom C' if custom else ''}, {n_grains} grain(s), {n_steps} step(s)]"
-    if len(paths) != 1 or paths[0].exc is not None:
-        raise sym.HarnessError(f"{tag}: unexpected paths {paths}")
-    p = only_path(sess, paths)
-    out, order, data, phis, stiff, quats = p.value
-    rules = poly.Rules()
-    for q in quats:
-        rules.unit_quat(q)
-    sess.satisfiable(f"{tag}: reach", p.pc)
+    if not paths:
+        raise sym.HarnessError(f"{tag}: no path")
+    sess.paths[tag] = {"paths": len(paths)}
     bad = False
-    for k in range(n_steps):
-        want = _oracle(order, data, phis, stiff, k)
-        name = f"{tag}: step {k}: result = sum_m phi_phase(m) sum_g f_g rotate(C_phase(m), A_g^T)"
-        q = sess.prove_nf(name, p.pc, rules, out[k], want)
-        if not q.holds and not bad:
-            bad = True
-            sess.cex.append({"name": name, "replay": "vf.props.C10:replay_average", "case": {"assemblage": CONFIGS[config][0], "minerals": list(order), "n_steps": n_steps, "n_grains": max(n_grains, 3)},
-                             "cls": {"kind": "Voigt average is not the phase-indexed volume-weighted sum of rotated tensors", "assemblage": list(CONFIGS[config][0])}})
-        if q.holds:
-            sess.prove_nf(f"{tag}: step {k}: result is symmetric", p.pc, rules, out[k], out[k].transpose())
-            # texture-independent invariants: 9K = C_iijj and the deviatoric trace C_ijij
-            def nineK(M):
-                return sum((M[i, j] for i in range(3) for j in range(3)), R(0))
+    for pi, p in enumerate(paths[:12]):
+        pt = tag if len(paths) == 1 else f"{tag} path {pi}"
+        if p.exc is not None:
+            sess.prove(f"{pt}: raises {type(p.exc).__name__}: {str(p.exc)[:60]}", p.pc, z3.BoolVal(False), timeout_ms=10000)
+            continue
+        out, order, data, phis, stiff, quats = p.value
+        rules = poly.Rules()
+        for q in quats:
+            rules.unit_quat(q)
+        if pi == 0:
+            sess.satisfiable(f"{tag}: reach", p.pc)
+        for k in range(n_steps):
+            want = _oracle(order, data, phis, stiff, k)
+            name = f"{pt}: step {k}: result = sum_m phi_phase(m) sum_g f_g rotate(C_phase(m), A_g^T)"
+            q = sess.prove_nf(name, p.pc, rules, out[k], want)
+            if not q.holds:
+                ce = {"name": name, "case": {"assemblage": CONFIGS[config][0], "minerals": list(order), "n_steps": n_steps, "n_grains": max(n_grains, 3)},
+                      "cls": {"kind": "Voigt average is not the phase-indexed volume-weighted sum of rotated tensors", "assemblage": list(CONFIGS[config][0])}}
+                if not bad:
+                    bad = name
+                    ce["replay"] = "vf.props.C10:replay_average"
+                else:
+                    ce["same_as"] = bad
+                sess.cex.append(ce)
+            if q.holds:
+                sess.prove_nf(f"{pt}: step {k}: result is symmetric", p.pc, rules, out[k], out[k].transpose())
 
-            def dev(M):
-                return sum((M[i, i] for i in range(3)), R(0)) + 2 * sum((M[i, i] for i in range(3, 6)), R(0))
+                def nineK(M):
+                    return sum((M[i, j] for i in range(3) for j in range(3)), R(0))
 
-            wk = sum((phis[n_] * nineK(stiff[n_]) for n_ in order), R(0))
-            wd = sum((phis[n_] * dev(stiff[n_]) for n_ in order), R(0))
-            # sum f = 1 is linear: eliminate the last volume of each snapshot so the normal form sees it
-            r2 = poly.Rules()
-            for q_ in quats:
-                r2.unit_quat(q_)
-            for n_ in order:
-                A, f = data[n_][k]
-                r2.alias(f[-1], 1 - sum((f[g] for g in range(len(f) - 1)), R(0)))
-            sess.prove_nf(f"{tag}: step {k}: 9K = C_iijj and C_ijij are the phase-weighted single-crystal values, independent of the texture", p.pc, r2,
-                          [nineK(out[k]), dev(out[k])], [wk, wd])
-    sample(sess, obligation="Voigt average", config=tag, cell00=str(out[0][0, 0])[:200])
+                def dev(M):
+                    return sum((M[i, i] for i in range(3)), R(0)) + 2 * sum((M[i, i] for i in range(3, 6)), R(0))
+
+                wk = sum((phis[n_] * nineK(stiff[n_]) for n_ in order), R(0))
+                wd = sum((phis[n_] * dev(stiff[n_]) for n_ in order), R(0))
+                # sum f = 1 is linear: eliminate the last volume of each snapshot so the normal form sees it
+                r2 = poly.Rules()
+                for q_ in quats:
+                    r2.unit_quat(q_)
+                for n_ in order:
+                    A, f = data[n_][k]
+                    r2.alias(f[-1], 1 - sum((f[g] for g in range(len(f) - 1)), R(0)))
+                sess.prove_nf(f"{pt}: step {k}: 9K = C_iijj and C_ijij are the phase-weighted single-crystal values, independent of the texture", p.pc, r2,
+                              [nineK(out[k]), dev(out[k])], [wk, wd])
+    if len(paths) > 12:
+        sess.truncated = True
+    out = paths[0].value[0] if paths[0].value else None
+    sample(sess, obligation="Voigt average", config=tag, paths=len(paths))
 
 
 def replay_lookup(case):
@@ -214,14 +228,17 @@ def replay_average(case):
 
     P = core.MineralPhase
     rng = np.random.default_rng(5)
-    ns, ng = case["n_steps"], case["n_grains"]
+    ns, ng = case["n_steps"], case["n_grains"] + 40
     st = minerals.StiffnessTensors()
     asm = [getattr(P, a) for a in case["assemblage"]]
     fr = [1.0] if len(asm) == 1 else [0.3, 0.7]
     ms = []
     for name in case["minerals"]:
         A = [Rotation.random(ng, random_state=int(rng.integers(1 << 30))).as_matrix() for _ in range(ns)]
-        f = [rng.dirichlet(np.ones(ng)) for _ in range(ns)]
+        f = []
+        for _ in range(ns):  # one dominant grain, ordinary grains and many tiny (but non-zero) ones
+            w = np.r_[rng.dirichlet(np.ones(ng - 40)) * 0.99996, np.full(40, 1e-6)]
+            f.append(w / w.sum())
         m = pydrex.Mineral(phase=getattr(P, name), fabric=core.MineralFabric.olivine_A if name == "olivine" else core.MineralFabric.enstatite_AB,
                            n_grains=ng, fractions_init=f[0], orientations_init=A[0])
         m.fractions, m.orientations = list(f), list(A)
